@@ -19,6 +19,7 @@ RULE = ('random signature shape (fn / class __init__ / class __new__ / registere
         'REQUIRED of which one is not configurable; oracle = REQUIRED model: ValueError for vararg marker, RuntimeError naming the configurable '
         '(suffix resolution over the selectors this worker registered) and exactly the unfilled names in signature order (body not run), else '
         'reception computed by CPython\'s binder with the marker replaced in place by what the binding delivers. '
+        'Positional-only signatures f(a, b, /, c=..) with the marker in any subset of the positional-only slots. '
         'distinct = (shape, api, signature features, marker placement classes, filled/missing counts, scope depth, access path, value kinds)')
 TIERS = {
     'quick': {'workers': 8, 'cases': 3600, 'timeout': 600},
